@@ -12,7 +12,17 @@ let chars_of_service (name : string) : int =
 
 let strip name =
   let name = (match String.index_opt name '~' with Some i -> String.sub name 0 i | None -> name) in
-  (match String.index_opt name '+' with Some i -> String.sub name 0 i | None -> name)
+  let name = (match String.index_opt name '+' with Some i -> String.sub name 0 i | None -> name) in
+  (match String.index_opt name '^' with Some i -> String.sub name 0 i | None -> name)
+
+(* ^k: k characteristics added to the service before the accessory enters the container *)
+let late name =
+  match String.index_opt name '^' with
+  | None -> 0
+  | Some i ->
+    let j = ref (i + 1) in
+    while !j < String.length name && name.[!j] >= '0' && name.[!j] <= '9' do incr j done;
+    int_of_string (String.sub name (i + 1) (!j - i - 1))
 
 let run (toks : string list) : string =
   match toks with
@@ -24,8 +34,8 @@ let run (toks : string list) : string =
         let (eid, svcs) = (match String.index_opt a ':' with
             | Some i -> (int_of_string (String.sub a 0 i), String.sub a (i+1) (String.length a - i - 1))
             | None -> (int_of_string a, "")) in
-        let names = "NewAccessoryInformation" :: (if svcs = "" then [] else L.map strip (split_on ',' svcs)) in
-        let shape = L.map (fun n -> nat_of_int (chars_of_service n)) names in
+        let specs = "NewAccessoryInformation" :: (if svcs = "" then [] else split_on ',' svcs) in
+        let shape = L.map (fun n -> nat_of_int (chars_of_service (strip n) + late n)) specs in
         let before = L.length !m.Ids.c_accs in
         let (m', ok) = Ids.add_accessory !m (n_of_int eid) shape in
         m := m';
